@@ -464,7 +464,7 @@ def check_asdf(repo):
     if copies != {"version": "version", "type": "type", "properties": "properties", "data": "data"}:
         fail(fa, f"from_asdf must pass version/type/properties/data through (found {copies})")
     src = ast.unparse(fa)
-    if "pd.DataFrame(frame_dct)" not in src.replace(" ", "").replace("pd.DataFrame(frame_dct)", "pd.DataFrame(frame_dct)"):
+    if "pd.DataFrame(" not in src.replace(" ", ""):
         fail(fa, "from_asdf must rebuild the frame with pd.DataFrame(<dict>)")
     ta = find_func(tree, "to_asdf")
     orient = None
@@ -475,6 +475,38 @@ def check_asdf(repo):
                     orient = _s(kw.value)
     if orient != "list":
         fail(ta, "to_asdf must convert the frame with to_dict(orient='list')")
+    # row labels of the cluster table: written as  dct["data"]["charge"][K] = <df>.index.to_list()  and read back as
+    # pd.DataFrame(<dict>, index=dct["data"]["charge"].get(K))  ->  kept;  neither -> not kept;  anything else fails closed
+    wkeys = []
+    for n in ast.walk(ta):
+        if isinstance(n, ast.Assign) and len(n.targets) == 1 and isinstance(n.targets[0], ast.Subscript):
+            src = ast.unparse(n.value).replace(" ", "")
+            if ".index" in src:
+                tgt = ast.unparse(n.targets[0].value).replace(" ", "").replace('"', "'")
+                if tgt != "dct['data']['charge']" or not any(src.endswith(x) for x in (".index.to_list()", ".index.tolist()")) \
+                        and not (src.startswith("list(") and src.endswith(".index)")):
+                    fail(n, "to_asdf: the row labels must be stored as dct['data']['charge'][K] = df.index.to_list()")
+                wkeys.append(_s(n.targets[0].slice))
+    rkeys = []
+    for n in ast.walk(fa):
+        if isinstance(n, ast.Call) and ast.unparse(n.func).replace(" ", "") == "pd.DataFrame":
+            if len(n.args) != 1 or any(kw.arg != "index" for kw in n.keywords):
+                fail(n, "from_asdf: pd.DataFrame(<dict>[, index=...]) expected")
+            for kw in n.keywords:
+                v = kw.value
+                base = None
+                if isinstance(v, ast.Call) and isinstance(v.func, ast.Attribute) and v.func.attr == "get" and len(v.args) == 1:
+                    base, key = v.func.value, _s(v.args[0])
+                elif isinstance(v, ast.Subscript):
+                    base, key = v.value, _s(v.slice)
+                if base is None or ast.unparse(base).replace(" ", "").replace('"', "'") != "dct['data']['charge']":
+                    fail(n, "from_asdf: index= must read dct['data']['charge'][K]")
+                rkeys.append(key)
+    if len(wkeys) > 1 or len(rkeys) > 1 or (wkeys != rkeys):
+        fail(ta, f"ASDF backend: row labels written under {wkeys} but read from {rkeys}")
+    if wkeys and wkeys[0] in ("array", "frame"):
+        fail(ta, "ASDF backend: the row labels overwrite a container key")
+    index_kept = bool(wkeys)
     # the processed data: {key: value.to_dict() for key, value in <data>.items()} - every group, values as lists
     comps = [n for n in ast.walk(ta) if isinstance(n, ast.DictComp)]
     if len(comps) != 1:
@@ -533,6 +565,7 @@ def check_asdf(repo):
         fn = find_func(det, name, cls="Detector")
         if f".{inner}(" not in ast.unparse(fn) or f"backends.{name}(" not in ast.unparse(fn):
             fail(fn, f"Detector.{name} must go through {inner} and backends.{name}")
+    return index_kept
 
 
 def tr_load(repo):
@@ -573,6 +606,19 @@ def tr_load(repo):
             fail(s, "unsupported assignment in load_detector")
         if isinstance(s, ast.If) and all(isinstance(b, ast.Raise) for b in s.body) and not s.orelse:
             continue
+        if isinstance(s, ast.If) and not s.orelse and new is not None:
+            # the MKID-only container:  if hasattr(new, "_phase") / isinstance(new, MKID):  detector._phase = new._phase
+            t = ast.unparse(s.test).replace(" ", "").replace('"', "'")
+            if t in (f"hasattr({new},'_phase')", f"isinstance({new},MKID)", f"hasattr({det},'_phase')", f"isinstance({det},MKID)"):
+                ok = True
+                for b in s.body:
+                    ok = ok and isinstance(b, ast.Assign) and len(b.targets) == 1 \
+                        and ast.unparse(b.targets[0]).replace(" ", "") == f"{det}._phase" \
+                        and ast.unparse(b.value).replace(" ", "") == f"{new}._phase"
+                if ok and s.body:
+                    assigned.append("FPhase")
+                    continue
+            fail(s, "unsupported conditional in load_detector")
         if isinstance(s, ast.Expr) and isinstance(s.value, ast.Call):
             txt = ast.unparse(s.value).replace(" ", "")
             if new and txt in (f"{det}.__dict__.update({new}.__dict__)", f"vars({det}).update(vars({new}))"):
@@ -581,6 +627,13 @@ def tr_load(repo):
         fail(s, "unsupported statement in load_detector")
     if new is None:
         fail(fn, "load_detector must load a detector from the file")
+    # save_detector: the passed detector is written with Detector.save (= to_dict + backend)
+    sv = find_func(tree, "save_detector")
+    body = body_no_doc(sv)
+    sp = [a.arg for a in sv.args.args]
+    if not (sp[:2] == ["detector", "filename"] and len(body) == 1 and isinstance(body[0], ast.Expr)
+            and ast.unparse(body[0].value).replace(" ", "") in ("detector.save(filename)", "detector.save(filename=filename)")):
+        fail(sv, "save_detector must be detector.save(filename)")
     return rebinds and not assigned, list(dict.fromkeys(assigned))
 
 
@@ -610,7 +663,7 @@ def extract(repo: Path) -> dict:
         out["kinds"][cls] = dict(tag=tag, pw=pw, w=w, guard=guard, pr=pr, r=r)
     out["dispatch"] = tr_dispatch(det_tree)
     out["photon_w"], out["photon_r"], out["photon_esc_w"], out["photon_esc_r"] = tr_photon(repo)
-    check_asdf(repo)
+    out["frame_index_kept"] = check_asdf(repo)
     out["load_rebinds_only"], out["load_assigned"] = tr_load(repo)
     return out
 
@@ -635,6 +688,7 @@ def emit(x: dict) -> str:
             f"  t_photon_w := ({_cstr(x['photon_w'][0])}, {_cstr(x['photon_w'][1])});\n"
             f"  t_photon_r := ({_cstr(x['photon_r'][0])}, {_cstr(x['photon_r'][1])});\n"
             f"  t_photon_esc_w := {_cesc(x['photon_esc_w'])};\n  t_photon_esc_r := {_cesc(x['photon_esc_r'])};\n"
+            f"  t_frame_index_kept := {'true' if x['frame_index_kept'] else 'false'};\n"
             f"  t_load_rebinds_only := {'true' if x['load_rebinds_only'] else 'false'};\n"
             f"  t_load_assigned := {_clist(x['load_assigned'])}\n|}}.\n")
 
@@ -649,20 +703,25 @@ _STD_W = [("photon", "FPhoton", None), ("pixel", "FPixel", None), ("signal", "FS
 _STD_R = [("FPhoton", "photon", None), ("FPixel", "pixel", None), ("FSignal", "signal", None), ("FImage", "image", None),
           ("FData", "data", ("#", "/")), ("FScene", "scene", ("#", "/")), ("FChargeArray", "charge.array", None),
           ("FChargeFrame", "charge.frame", None)]
+_ALL_ASSIGNED = ["FScene", "FPhoton", "FChargeArray", "FChargeFrame", "FPixel", "FSignal", "FImage", "FData", "FPhase"]
 _STD_PW = [("geometry", "PGeometry"), ("environment", "PEnvironment"), ("characteristics", "PCharacteristics")]
 _STD_PR = [(b, a) for a, b in _STD_PW]
 
 
 def _std(tag, phase=False):
     w = list(_STD_W)
+    r = list(_STD_R)
     if phase:
         w.insert(4, ("phase", "FPhase", None))
-    return dict(tag=tag, pw=_STD_PW, w=w, guard=tag, pr=_STD_PR, r=_STD_R)
+        r.insert(4, ("FPhase", "phase", None))
+    return dict(tag=tag, pw=_STD_PW, w=w, guard=tag, pr=_STD_PR, r=r)
 
 
-# the last accepted shape (the unchanged tree); used only to keep a model for the failing-input search
+# the last accepted shape (the tree with C18-F9 / C18-F10 / C18-frame-row-labels repaired); used only to keep a model
+# for the failing-input search
 FALLBACK = emit(dict(
     kinds={"CCD": _std("CCD"), "CMOS": _std("CMOS"), "MKID": _std("MKID", phase=True), "APD": _std("APD")},
     dispatch=[("CCD", "CCD"), ("CMOS", "CMOS"), ("MKID", "MKID"), ("APD", "APD")],
     photon_w=("array_2d", "array_3d"), photon_r=("array_2d", "array_3d"),
-    photon_esc_w=("/", "#"), photon_esc_r=("#", "/"), load_rebinds_only=True, load_assigned=[]))
+    photon_esc_w=("/", "#"), photon_esc_r=("#", "/"), frame_index_kept=True, load_rebinds_only=False,
+    load_assigned=_ALL_ASSIGNED))
